@@ -44,8 +44,9 @@ EXPLANATION = (
     " (PROGRESS) by abstract interpretation of sylt-parser (cursor position relative to the loop head: same / further / strictly further; what is known about the token under the cursor; summaries per parsing function as a greatest fixed point): every loop driven by a token cursor advances it strictly on every path back to its head - at the latest after two more iterations, which is how the error-recovery loops of module() and block() work - and is left when the cursor is at the end of the input; callbacks handed to the generic list parser never move the cursor backwards."
 )
 UNDECIDED = ("absence of panics at the unreviewed census sites, arithmetic overflow, native stack depth on deeply nested input, "
-             "unbounded recursion of the parser without consuming input, loops of the parser that are not driven by a cursor and "
+             "loops of the parser that are not driven by a cursor and "
              "are not in the reviewed table, termination of the type checker in general.")
+# (recursion of the parser without consuming input is decided since session 4: PROGRESS|recursion|*)
 
 MANIFEST = dict(
     text=EXPLANATION + " Not decided: " + UNDECIDED,
@@ -82,6 +83,12 @@ BOUNDED_LOOPS = {
     ("Context::prev", 1): "walks back over comments until a non-comment token; every caller is strictly behind a root cursor, which rests on a non-comment token (PROGRESS|Context::prev|callers-behind-a-root)",
     ("expression::function", 2): "pops one trailing empty statement from a finite vector per iteration",
     ("sylt_parser::tree", 1): "work list of files guarded by a visited set (C12 VISIT-ONCE)",
+}
+
+
+# recursion that does not go through the token stream (reviewed)
+RECURSION_OK = {
+    "prepend_expresion": "it walks the expression tree that has already been parsed (the cursor is only passed along for error spans)",
 }
 
 
@@ -190,6 +197,30 @@ def parser_progress(F, rep):
                    last(fnp), last(c0), {"ok": "it succeeded", "err": "it failed", "any": "either outcome"}[outcome], last(c1), last(fnp)),
                where)
     rep.floor("BACKTRACK", "repeated sub-parses from one cursor", nb, 4)
+    # recursion without progress
+    n_nodes, cycles = A.zero_progress_cycles()
+    seen_c = set()
+    for cyc in cycles:
+        names = tuple(last(x[0]) for x in cyc)
+        key = "->".join(names)
+        if key in seen_c:
+            continue
+        seen_c.add(key)
+        why = RECURSION_OK.get(names[0]) if len(set(names)) == 1 else None
+        ok = why is not None
+        if names[0] == "parse_sep_end_by" and len(set(names)) == 1:
+            # the list parser calls itself after `item` and `sep`: it consumes input iff the item callback does
+            items = [(c_[2], c_[3], c_[4]) for c_ in A.callable_checks() if c_[1] == "parse_sep_end_by"]
+            adv = A.item_callbacks_advance()
+            ok = adv is True
+            why = "every `item` callback handed to parse_sep_end_by consumes at least one token" if ok else "an `item` callback may consume nothing: %s" % adv
+        rep.ob("PROGRESS", "recursion|%s" % key, ok,
+               "the cycle %s hands the cursor on unchanged, but: %s" % (key, why) if ok else
+               "the parsing functions %s call each other with the cursor they were given and nothing consumed in between: on input that "
+               "takes this path the parser recurses until the stack overflows%s" % (key, " (%s)" % why if why else ""), None, sites=len(cyc))
+    rep.ob("PROGRESS", "recursion|census", True, "%d (function, token fact) nodes explored for calls that pass the cursor on unchanged; "
+           "%d cycle(s), each listed above" % (n_nodes, len(seen_c)), None, sites=n_nodes)
+    rep.floor("PROGRESS", "recursion nodes explored", n_nodes, 40)
     rep.info("PROGRESS summaries (cursor returned relative to the argument): " + "; ".join(
         "%s %s%s" % (last(p), progress.show(sm["ret"]), "" if sm["eof_ok"] else " [no Ok at EOF]") for p, sm in sorted(A.summaries.items())))
 
